@@ -175,7 +175,7 @@ def run(ctx, res, cases=None):
     rng = pv.Rng(ctx.seed)
     corpus = load_corpus()
     if cases is None:
-        n = 10 if ctx.quick else 60
+        n = 10 if ctx.quick else 30
         k = (n * 2) // 5
         progs = corpus + ptg_gen.gen_programs(rng, n - k, 'full', 'p') + ptg_gen.gen_programs(rng.fork(4242), k, 'full', 'q', derived_params=False)
     else:
@@ -205,7 +205,7 @@ def run(ctx, res, cases=None):
                 if exe is None:
                     res.infra_errors.append('program %s does not build with %s: %s' % (p.name, b, log[-600:]))
                     continue
-                sel = cfgs if (ctx.quick or len(cfgs) <= 6) else [cfgs[(rng.below(len(cfgs)))] for _ in range(6)]
+                sel = cfgs if (ctx.quick or len(cfgs) <= 6) else [cfgs[(rng.below(len(cfgs)))] for _ in range(4)]
                 if ctx.quick and b != pvptg.BACKENDS[0]:
                     sel = sel[:2]
                 for cfg in sel:
